@@ -159,3 +159,10 @@ Lemma iso_weekday_succ n : iso_weekday (n + 1) = iso_weekday n mod 7 + 1.
 Proof. unfold iso_weekday. lia. Qed.
 Lemma iso_weekday_period n k : iso_weekday (n + 7 * k) = iso_weekday n.
 Proof. unfold iso_weekday. lia. Qed.
+
+(* range of representable wall values, with the constants evaluated once (unfolding max_wall inside lia goals makes Qed very slow) *)
+Lemma max_wall_val : max_wall = 315537897599999999. Proof. vm_compute. reflexivity. Qed.
+Lemma wall_in_range_iff W : wall_in_range W = true <-> 0 <= W <= 315537897599999999.
+Proof. unfold wall_in_range. rewrite max_wall_val. lia. Qed.
+Lemma wall_in_range_false_iff W : wall_in_range W = false <-> (W < 0 \/ 315537897599999999 < W).
+Proof. unfold wall_in_range. rewrite max_wall_val. lia. Qed.
